@@ -53,6 +53,9 @@ UU_CLIENT = {
     'ret@0': (['req', 'ret'], False, True),
     'ret@1': (['msgend', 'ret'], True, True),
     'noreq': (['sleep:0.5', 'ret'], False, False),
+    'late-raise': (['msgend', 'sleep:2', 'raise'], True, False),
+    'late-cancel': (['msgend', 'sleep:2', 'cancel'], True, False),
+    'req-sleep-msg': (['req', 'sleep:2', 'msgend', 'recv'], True, True),
 }
 SS_CLIENT = {
     'ok': (['req', 'msg', 'msg', 'end', 'recvall'], True, True),
@@ -64,12 +67,17 @@ SS_CLIENT = {
     'raise-mid': (['req', 'msg', 'raise'], False, False),
     'ret-mid': (['req', 'msg', 'ret'], False, True),
     'double-cancel': (['req', 'cancel', 'cancel'], False, False),
+    'dawdle': (['req', 'msg', 'sleep:6', 'end', 'recvall'], True, True),
+    'late-raise': (['req', 'msg', 'sleep:2', 'raise'], False, False),
+    'late-ret': (['req', 'msg', 'sleep:2', 'ret'], False, True),
+    'late-cancel': (['req', 'msg', 'sleep:2', 'cancel'], False, False),
+    'slow-sender': (['req', 'msg', 'sleep:2', 'msg', 'sleep:2', 'end', 'recvall'], True, True),
 }
 # handler programs (link set-up): name -> steps
 UU_SERVER = {
     'ok': ['recv', 'send'], 'ok-slow': ['recv', 'sleep:2', 'send'], 'hold': ['recv', 'sleep:30', 'send'],
     'early': ['send'], 'status': ['recv', 'grpc:5'], 'status-early': ['grpc:7'], 'exc': ['recv', 'exc'],
-    'nomsg': ['recv'], 'only-explicit': ['trailers:3'], 'explicit-ok': ['recv', 'send', 'trailers:0'],
+    'nomsg': ['recv'], 'grpc-ok-nomsg': ['recv', 'grpc:0'], 'only-explicit': ['trailers:3'], 'explicit-ok': ['recv', 'send', 'trailers:0'],
     'reset': ['recv', 'cancel'], 'reset-early': ['cancel'], 'exc-after-send': ['recv', 'send', 'exc'],
     'exc-after-trailers': ['recv', 'send', 'trailers:0', 'exc'],
     'base': ['recv', 'base'], 'base-early': ['base'], 'selfcancel': ['recv', 'selfcancel'],
@@ -126,12 +134,34 @@ def gen_case(rng, mode, d4_ok=True):
                       'swallow': mode == 'link' and rng.random() < 0.1})
     events = []
     for _ in range(rng.choice([0, 1, 1, 2, 3])):
-        events.append({'t': rng.choice([0.25, 0.5, 1, 1.5, 2, 3, 4, 6, 10, 20]), 'ev': 'settings',
-                       'n': rng.choice([1, 2, 5])})
+        ev = {'t': rng.choice([0.25, 0.5, 1, 1.5, 2, 3, 4, 6, 10, 20]), 'ev': 'settings',
+              'n': rng.choice([1, 2, 5])}
+        # one SETTINGS frame may change several settings at once
+        extra = rng.choice([None, None, 'iws', 'iws', 'mfs', 'unknown', 'iws+mfs', 'iws+unknown', 'all'])
+        if extra:
+            parts = {'iws': ['iws', rng.choice([65535, 65536, 100000, 1 << 20])],
+                     'mfs': ['mfs', rng.choice([16384, 16385, 65536])],
+                     'unknown': ['unknown', rng.choice([0x99, 0xff00]), rng.randrange(1 << 16)]}
+            names = ['iws', 'mfs', 'unknown'] if extra == 'all' else extra.split('+')
+            ev['extra'] = [parts[x] for x in names]
+        events.append(ev)
     if rng.random() < 0.2:
         events.append({'t': rng.choice([0.25, 0.75, 1.5, 3]), 'ev': 'taskcancel', 'c': rng.randrange(n)})
     if mode == 'link' and d4_ok and rng.random() < 0.06:
         events.append({'t': rng.choice([0.25, 0.6, 1.25, 2.5]), 'ev': 'srvclose'})
+    if rng.random() < 0.45:
+        # back-pressure windows on the client's transport (calls start, send, are cancelled, time out and
+        # leave their context inside them) ...
+        for _ in range(rng.choice([1, 1, 2])):
+            a = rng.choice([0.25, 0.75, 1.25, 1.75, 2.5, 3.5, 4.5, 7])
+            events.append({'t': a, 'ev': 'pause'})
+            if rng.random() < 0.7:                    # ... some last until the final resume
+                events.append({'t': a + rng.choice([0.5, 1, 2, 4, 12]), 'ev': 'resume'})
+        if rng.random() < 0.5:
+            events.append({'t': rng.choice([1.0, 1.9, 2.75, 3.75, 5.5]), 'ev': 'taskcancel', 'c': rng.randrange(n)})
+    if mode == 'link' and rng.random() < 0.12:
+        a = rng.choice([0.25, 0.75, 1.25, 2.5])
+        events += [{'t': a, 'ev': 'spause'}, {'t': a + rng.choice([0.5, 2, 6]), 'ev': 'sresume'}]
     return {'mode': mode, 'limit0': rng.choice([None, 1, 1, 2, 2, 5]), 'calls': calls, 'events': events,
             'cut': rng.choice(['none', 'some', 'small']), 'cut_seed': rng.randrange(1 << 30)}
 
@@ -144,7 +174,7 @@ def parse_snap(tok):
     lst = lambda s: [int(x) for x in s.split(',')] if s else []
     return {'creg': nums[0], 'sreg': nums[1], 'out': nums[2], 'in': nums[3], 'waiting': lst(f[1]),
             'woken': lst(f[2]), 'opened': lst(f[3]), 'leak': lst(f[4]), 'maxc': int(f[5]), 'q': f[6] == '1',
-            'h2': f[7].split(',') if f[7] else []}
+            'h2': f[7].split(',') if f[7] else [], 'held': lst(f[8]), 'paused': f[9] == '1'}
 
 
 def compare(run, answer):
@@ -160,13 +190,22 @@ def compare(run, answer):
             continue
         m, s = parse_snap(got), snaps[i]
         diff = {}
-        for k in ('creg', 'out', 'in', 'waiting', 'opened', 'maxc', 'h2'):
+        for k in ('creg', 'out', 'in', 'opened', 'maxc', 'h2', 'held', 'paused'):
             if m[k] != s[k]:
                 diff[k] = (m[k], s[k])
+        if bool(m['held']) != s['buffered']:
+            diff['h2 send buffer non-empty'] = (bool(m['held']), s['buffered'])
         if s['sreg'] is not None and m['sreg'] != s['sreg']:
             diff['sreg'] = (m['sreg'], s['sreg'])
-        if m['woken']:
-            diff['woken'] = (m['woken'], [])      # the model has a runnable waiter the implementation left blocked
+        if s['paused']:
+            # a woken waiter cannot retry before write_ready is set again: it is still blocked
+            if sorted(m['waiting'] + m['woken']) != s['waiting']:
+                diff['waiting+woken'] = (sorted(m['waiting'] + m['woken']), s['waiting'])
+        else:
+            if m['waiting'] != s['waiting']:
+                diff['waiting'] = (m['waiting'], s['waiting'])
+            if m['woken']:
+                diff['woken'] = (m['woken'], [])  # the model has a runnable waiter the implementation left blocked
         if s['final'] and not m['q']:
             diff['quiescent'] = (False, True)
         if diff:
@@ -181,36 +220,55 @@ def oracle(run):
     from harness import c10_util as U
     fails, seen = [], set()
     final = run.snaps[-1][1]
-    leaked = [c for c in range(run.n) if final['h2'][c][1] in ('o', 'r', 'l') or final['h2'][c][0] in ('o', 'r', 'l')]
+    OPEN = ('o', 'r', 'l')
+    NA = {'handler_end': 'n/a', 'terminal_frame': 'n/a', 'reset_received': False}
 
     def cls_of(c):
-        if run.mode != 'link' or c is None:
-            return {'handler_end': 'n/a', 'terminal_frame': 'n/a', 'reset_received': False}
+        if run.mode != 'link' or not run.st[c].released:
+            return dict(NA)
         return U.leak_class(run, c)
 
-    def agg(cs):
-        cl = [cls_of(c if run.st[c].released else None) for c in cs] or [cls_of(None)]
-        first = cl[0]
-        return first if all(x == first for x in cl) else {'handler_end': 'mixed', 'terminal_frame': 'mixed',
-                                                          'reset_received': False}
+    def cause_of(c, snap):
+        """why the stream of call c is still open somewhere -- from observations only"""
+        if c in snap['held'] and snap['buffered'] and snap['h2'][c][0] == 'c':
+            return 'rst-held'          # client h2 closed the stream, its RST_STREAM is still in h2's send buffer
+        cl = cls_of(c)
+        if cl['handler_end'] == 'BaseException' and cl['terminal_frame'] == 'none' and not cl['reset_received']:
+            return 'd4'
+        return 'other'
+
+    def involved(kind, c, snap):
+        if c is not None and kind in ('stream-open-after-handler-exit', 'stream-half-open-after-error-status',
+                                      'client-call-hangs', 'server-stream-open-after-client-exit',
+                                      'client-stream-open-after-exit'):
+            return [c]
+        if kind in ('waiter-starved-by-leaked-stream', 'probe-blocked', 'probe-failed'):
+            return [d for d in range(run.n) if snap['h2'][d][0] in OPEN]       # what uses the client's slots
+        if kind == 'leftover-at-quiescence':
+            return [d for d in range(run.n) if snap['h2'][d][0] in OPEN or snap['h2'][d][1] in OPEN]
+        return []
+
+    def signature(kind, c, snap):
+        cs = involved(kind, c, snap)
+        causes = sorted({cause_of(d, snap) for d in cs})
+        classes = [cls_of(d) for d in cs]
+        cl = classes[0] if classes and all(x == classes[0] for x in classes) else \
+            (dict(NA) if not classes else {'handler_end': 'mixed', 'terminal_frame': 'mixed', 'reset_received': False})
+        return dict(cl, kind=kind, cause=(causes[0] if len(causes) == 1 else ('n/a' if not causes else 'mixed')))
+
     for chk in run.checks:
-        kind, c = chk['kind'], chk['call']
-        if kind in ('stream-open-after-handler-exit', 'client-call-hangs', 'server-stream-open-after-client-exit',
-                    'client-stream-open-after-exit'):
-            cl = cls_of(c)
-        else:
-            cl = agg(leaked)
-        sig = dict(cl, kind=kind)
+        sig = signature(chk['kind'], chk['call'], chk['snap'])
         key = tuple(sorted(sig.items()))
         if key in seen:
             continue
         seen.add(key)
-        fails.append({'what': '%s (call %s at t=%s)' % (kind, c, chk['t']), 'signature': sig, 'observed': chk})
+        fails.append({'what': '%s (call %s at t=%s)' % (chk['kind'], chk['call'], chk['t']), 'signature': sig,
+                      'observed': chk})
     if run.probe != 'ok':
-        sig = dict(agg(leaked), kind='probe-blocked' if run.probe == 'pending' else 'probe-failed')
+        sig = signature('probe-blocked' if run.probe == 'pending' else 'probe-failed', None, final)
         fails.append({'what': 'a fresh unary call with MAX_CONCURRENT_STREAMS=1 after the history: %s' % run.probe,
                       'signature': sig, 'observed': {'probe': run.probe, 'final': {k: final[k] for k in
-                                                     ('creg', 'sreg', 'out', 'in', 'h2', 'pending_tasks')}}})
+                                                     ('creg', 'sreg', 'out', 'in', 'h2', 'pending_tasks', 'held')}}})
     if getattr(run, 'peer_violations', 0):
         fails.append({'what': 'the client broke HTTP/2 rules towards the peer', 'signature': {'kind': 'h2-violation'},
                       'observed': run.peer_violations})
@@ -248,6 +306,8 @@ def evaluate(ctx, res, cases):
             res.count('client-result:' + str(run.st[case['calls'].index(c)].c_result))
         for ev in case['events']:
             res.count('event:' + ev['ev'] + (':%d' % ev['n'] if ev['ev'] == 'settings' else ''))
+            if ev['ev'] == 'settings':
+                res.count('settings-frame:MCS' + ''.join('+' + x[0] for x in ev.get('extra') or []))
         res.count('limit0:%s' % case.get('limit0'))
         for tok, exp in zip(run.tokens, run.expect):
             if tok != 'K':
@@ -257,9 +317,14 @@ def evaluate(ctx, res, cases):
         res.count('final:' + ('clean' if not (final['creg'] or final['out'] or final['in'] or final['sreg'] or
                                                final['pending_tasks']) else 'not-clean'))
         res.count('probe:' + run.probe)
+        if any(s['held'] for _, s in run.snaps):
+            res.count('case-with-rst-held-back-while-paused')
+        if any(s['paused'] and s['waiting'] for _, s in run.snaps):
+            res.count('case-with-waiters-while-paused')
         res.signatures.add((case['mode'], tuple(sorted((c['card'], c['cp'], c['sp'], c['deadline'] is not None)
                                                         for c in case['calls'])),
-                            tuple(ev.get('n') for ev in case['events']), case.get('limit0'), waited))
+                            tuple((ev['ev'], ev.get('n'), tuple(x[0] for x in ev.get('extra') or []))
+                                  for ev in case['events']), case.get('limit0'), waited))
         res.sample({'case': case, 'ops': ' '.join(run.tokens[:60]), 'final': {k: final[k] for k in
                                                                              ('creg', 'sreg', 'out', 'in', 'h2')},
                     'probe': run.probe}, limit=4)
@@ -271,6 +336,12 @@ def evaluate(ctx, res, cases):
             ops = [t for t in run.tokens if t != 'K']
             if ops != ['o:0:0', 'e:0', 'd:0', 'd:0', 'q:0:base']:
                 res.disagreements.append({'case': case, 'model': 'd4_witness', 'impl': ops})
+            res.count('coq-witness-replayed-on-code')
+        if case.get('witness') == 'held_witness_running':
+            # the witness of C10_client_exit_reaches_server_refuted, op for op
+            ops = [t for t in run.tokens if t != 'K']
+            if ops != ['o:0:0', 'd:0', 'P', 'X:0', 'U']:
+                res.disagreements.append({'case': case, 'model': 'held_witness_running', 'impl': ops})
             res.count('coq-witness-replayed-on-code')
         if ctx.model_ok:
             ans = next(answers)
@@ -298,7 +369,7 @@ def run(ctx):
                 'of the byte stream (link).  distinct = distinct (set-up, multiset of (cardinality, client '
                 'program, peer program, deadline?), announced limits, waiters occurred)')
     cases = list(ctx.corpus())
-    n = ctx.n(900, 8000)
+    n = ctx.n(600, 8000)
     for _ in range(n):
         cases.append(gen_case(rng, 'link'))
     for _ in range(n):
